@@ -17,7 +17,15 @@ TrustB    == Len(hist) < MaxActs /\ Trust("b")
 TrustC    == Len(hist) < MaxActs /\ Trust("c")
 DistrustB == Len(hist) < MaxActs /\ Distrust("b")
 DistrustC == Len(hist) < MaxActs /\ Distrust("c")
+\* named per peer so that the state graph dump labels every edge with its script step
+CallIDB      == Len(hist) < MaxActs /\ OpenCall("Cluster.ID", "b")
+CallIDC      == Len(hist) < MaxActs /\ OpenCall("Cluster.ID", "c")
+CallVersionB == Len(hist) < MaxActs /\ OpenCall("Cluster.Version", "b")
+CallVersionC == Len(hist) < MaxActs /\ OpenCall("Cluster.Version", "c")
+CallPeerAddB == Len(hist) < MaxActs /\ OpenCall("Cluster.PeerAdd", "b")
+CallPeerAddC == Len(hist) < MaxActs /\ OpenCall("Cluster.PeerAdd", "c")
 Next == TrustB \/ TrustC \/ DistrustB \/ DistrustC
+        \/ CallIDB \/ CallIDC \/ CallVersionB \/ CallVersionC \/ CallPeerAddB \/ CallPeerAddC
 Spec == Init /\ [][Next]_vars
 
 GraphView == <<cfg.mode, cfg.all, ts>>
